@@ -1890,3 +1890,44 @@ def compress_precondition(chk, src):
                            detail=f"{fi.qual} compresses `{name}` (= {unparse(dv)[:50]}) without bringing it to canonical form with the centre at the root: the singular values it truncates / returns "
                                   "are not Schmidt coefficients unless the state happens to be canonical already (fresh random states and optimiser output are)")
     return n
+
+
+# ---------------------------------------------------------------------------------------------- decoding of the time argument
+def time_decoding(chk, src):
+    """TTNS.evolve hands (coeff, tau) to the evolvers, which apply exp(coeff * H * tau): for every kind of step this must be exp(-i H tau_given)"""
+    import sympy as sp
+    chk.rule("time-decoding", "TTNS.evolve: coeff * tau passed to the evolver equals -i * (the step the caller gave), for real steps and imaginary steps of either sign", 2)
+    fi = src.func(TREE, "TTNS.evolve")
+    t, s_any = sp.Symbol("t", real=True), sp.Symbol("s", real=True)
+    for label, tau_in, is_c in (("real step t", t, False), ("imaginary step i*s (s of either sign)", sp.I * s_any, True)):
+        got = []
+
+        class Z(Sym):
+            pass
+        state = Z("state", evolve_config=Sym("cfg", method="m"))
+        state.__dict__["copy"] = lambda: Z("copy", normalize=lambda kind: None)
+        state.__dict__["to_complex"] = lambda: Z("complex-copy", normalize=lambda kind: None)
+
+        class TV(Sym):
+            """the step handed in by the caller"""
+            def __init__(self, value):
+                super().__init__(str(value))
+                self.value = value
+
+            @property
+            def imag(self):
+                return sp.im(self.value)
+
+            @property
+            def real(self):
+                return sp.re(self.value)
+
+        def method(ttns, ttno, coeff, tau):
+            got.append((repr(ttns), coeff, tau.value if isinstance(tau, TV) else tau))
+            return Z("evolved", normalize=lambda kind: None)
+        it = SymInterp(src, None, {"np": Sym("np", iscomplex=lambda x: is_c), "EVOLVE_METHODS": {"m": method}, "abs": lambda x: sp.Abs(x.value if isinstance(x, TV) else x)})
+        it.call_function(fi, [state, "ttno", TV(tau_in)])
+        ok = len(got) == 1 and sp.simplify(sp.sympify(got[0][1]) * got[0][2] + sp.I * tau_in) == 0 and got[0][0] != "state"
+        chk.ob("time-decoding", f"TTNS.evolve [{label}]", ok, fi.where, {"state passed": got[0][0], "coeff * tau": str(sp.simplify(sp.sympify(got[0][1]) * got[0][2]))} if got else "no evolver call",
+               {"state passed": "a copy", "coeff * tau": str(sp.simplify(-sp.I * tau_in))}, line=fi.node.lineno,
+               detail="the evolvers apply exp(coeff * H * tau); for a step tau_given this must be exp(-i H tau_given) - in particular an imaginary step +i*s must heat (exp(+sH)) and -i*s must cool")
